@@ -71,6 +71,8 @@ def gen_program():
         # documented exemptions: recorded, never demanded
         decls.append("//go:nosplit\nfunc nosplit%s() string { return %s }" % (i, q(mk("EXEMPT-nosplit-function", n, False)))); P("nosplit%s()" % i)
         decls.append("var xTarget%s = %s" % (i, q(mk("EXEMPT-ldflags-X-target", n, False)))); P("xTarget" + i)
+        # a function-local variable that merely shares its name with the -X target is an ordinary literal
+        decls.append("func shadowX%s() string {\n\tvar xTarget%s = %s\n\treturn xTarget%s\n}" % (i, i, q(mk("local-var-named-like-X-target", n, dem)), i)); P("shadowX%s()" % i)
         decls.append("var namedVar%s named = %s" % (i, q(mk("EXEMPT-named-string-type", n, False)))); P("string(namedVar%s)" % i)
         decls.append("const cLen%s = len(%s)" % (i, q(mk("EXEMPT-const-context-only", n, False)))); P("strconv.Itoa(cLen%s)" % i)
         decls.append("type tagged%s struct {\n\tF int `%s`\n}" % (i, mk("EXEMPT-struct-tag", n, False))); P("strconv.Itoa(tagged%s{}.F)" % i)
